@@ -212,6 +212,11 @@ impl VM {
                 }),
                 pos,
             )?;
+        } else {
+            return Err(Error::new(
+                format!("No cast from {} to {}", val.type_name(), t).into(),
+                pos,
+            ));
         }
         Ok(())
     }
